@@ -441,11 +441,23 @@ func runC20(cfg *hx.RunCfg) (*hx.Result, error) {
 		runHist(res, h, idx)
 		idx++
 	}
+	// wall-clock budget for the random part (loaded machines): a run that hits it covers a prefix of the same seeded sequence
+	budget := 50 * time.Second
+	if cfg.Tier == "thorough" {
+		budget = 14 * time.Minute
+	}
+	if cfg.N != 0 {
+		budget = 24 * time.Hour
+	}
+	start := time.Now()
 	r := hx.NewRng(cfg.Seed)
-	for i := 0; i < n; i++ {
+	ran := 0
+	for i := 0; i < n && time.Since(start) < budget; i++ {
 		runHist(res, genHist(r, i), idx)
 		idx++
+		ran++
 	}
+	res.Notes = append(res.Notes, fmt.Sprintf("random histories run: %d of at most %d (budget %v)", ran, n, budget))
 	_ = strings.TrimSpace
 	return res, nil
 }
